@@ -200,3 +200,102 @@ h_VSseek(void)
     H4V_COVER(r == FAIL && nfields == 0 && eltpos > 0, "VSseek refuses a vdata without fields");
     H4V_CANARY("VSseek end");
 }
+
+/* ---- VSread gather (bounded): <= 2 fields of 1- or 2-byte type, order <= 2, nelt <= 2, file and
+   user interlace FULL/NO, read list = any non-repeating selection of the fields.  The user buffer
+   is allocated with EXACTLY nelt*uvsize bytes: any write outside it is a failed pointer check. ---- */
+#define RF 2
+void
+h_VSread(void)
+{
+    VDATA *vs = mk_env();
+    H4V_ND(int, nf);
+    H4V_ND(int, rn);
+    H4V_ND(int32, nelt);
+    H4V_ND(int32, interlace);
+    H4V_ND(int16, vs_interlace);
+    H4V_ND(int, g_r);  /* ghost record */
+    H4V_ND(int, g_j);  /* ghost position in the read list */
+    H4V_ND(int, g_c);  /* ghost component */
+    H4V_ND(int, g_b);  /* ghost byte of the component */
+    H4V_ASSUME(nf >= 1 && nf <= RF && rn >= 1 && rn <= nf && nelt >= 1 && nelt <= 2);
+    H4V_ASSUME(vs_interlace == FULL_INTERLACE || vs_interlace == NO_INTERLACE);
+    static int16  type[RF];
+    static uint16 off[RF], isize[RF], order[RF], esize[RF];
+    static char  *name[RF];
+    static int    item[RF];
+    H4V_ND_BUF(uint8, f_wide, nf, RF);  /* 1: 16-bit type, 0: 8-bit type */
+    H4V_ND_BUF(uint8, f_order, nf, RF);
+    H4V_ND_BUF(uint8, r_item, rn, RF);
+    int32 ivsize = 0;
+    for (int i = 0; i < RF; i++)
+        if (i < nf) {
+            H4V_ASSUME(f_wide[i] <= 1 && f_order[i] >= 1 && f_order[i] <= 2);
+            type[i]  = f_wide[i] ? DFNT_UINT16 : DFNT_UINT8;
+            order[i] = f_order[i];
+            isize[i] = (uint16)(f_order[i] * (f_wide[i] ? 2 : 1));
+            esize[i] = isize[i];
+            off[i]   = (uint16)ivsize;
+            ivsize += isize[i];
+        }
+    int32 uvsize = 0;
+    for (int j = 0; j < RF; j++)
+        if (j < rn) {
+            H4V_ASSUME(r_item[j] < nf);
+            item[j] = r_item[j];
+            uvsize += esize[item[j]];
+        }
+    H4V_ASSUME(rn < 2 || item[0] != item[1]);
+    vs->wlist.n      = nf;
+    vs->wlist.ivsize = (uint16)ivsize;
+    vs->wlist.type   = type;
+    vs->wlist.off    = off;
+    vs->wlist.isize  = isize;
+    vs->wlist.order  = order;
+    vs->wlist.esize  = esize;
+    vs->wlist.name   = name;
+    vs->rlist.n      = rn;
+    vs->rlist.item   = item;
+    vs->interlace    = vs_interlace;
+    vs->nvertices    = nelt;
+    vs->aid          = 77;
+    vs->access       = 'r';
+    g_exist          = TRUE;
+    g_io_short       = 0;
+    g_io_n           = 0;
+    g_pos            = 0;
+    g_store_len      = nelt * ivsize;
+    Vtbuf            = NULL;
+    Vtbufsize        = 0;
+    H4V_ND_BUF(uint8, store, g_store_len, 16);
+    for (int i = 0; i < 16; i++)
+        if (i < g_store_len)
+            g_store[i] = store[i];
+    uint8 *ubuf = malloc((size_t)(nelt * uvsize));
+    H4V_ASSUME(ubuf != NULL);
+    int32 r = VSread(7, ubuf, nelt, interlace);
+    if (KEY_BAD || (interlace != FULL_INTERLACE && interlace != NO_INTERLACE)) {
+        H4V_CHECK(r == FAIL, "VSread refuses a bad key / interlace");
+    }
+    else if (Vtbuf != NULL || r != FAIL) { /* the only other refusal is running out of memory */
+        H4V_CHECK(r == nelt, "VSread returns the number of records read");
+        if (g_r >= 0 && g_r < nelt && g_j >= 0 && g_j < rn) {
+            int f  = item[g_j];
+            int sz = (type[f] == DFNT_UINT16) ? 2 : 1;
+            if (g_c >= 0 && g_c < order[f] && g_b >= 0 && g_b < sz) {
+                int32 uoff = (g_j == 1) ? esize[item[0]] : 0;
+                int32 spos = (vs_interlace == FULL_INTERLACE) ? g_r * ivsize + off[f] + g_c * sz + g_b
+                                                              : off[f] * nelt + g_r * isize[f] + g_c * sz + g_b;
+                int32 upos = (interlace == FULL_INTERLACE) ? g_r * uvsize + uoff + g_c * sz + (sz - 1 - g_b)
+                                                           : uoff * nelt + g_r * esize[f] + g_c * sz + (sz - 1 - g_b);
+                H4V_CHECK(ubuf[upos] == g_store[spos], "VSread: ghost (record, field, component, byte) is where interlace and field list dictate");
+            }
+        }
+    }
+    H4V_COVER(r == nelt && nf == 2 && rn == 2 && item[0] == 1 && interlace == NO_INTERLACE && vs_interlace == FULL_INTERLACE, "VSread case A, fields swapped");
+    H4V_COVER(r == nelt && nf == 2 && rn == 1 && interlace == FULL_INTERLACE && vs_interlace == FULL_INTERLACE, "VSread case C, subset");
+    H4V_COVER(r == nelt && nf == 2 && interlace == FULL_INTERLACE && vs_interlace == NO_INTERLACE, "VSread case D");
+    H4V_COVER(r == nelt && nf == 2 && interlace == NO_INTERLACE && vs_interlace == NO_INTERLACE, "VSread case B");
+    H4V_COVER(r == nelt && nf == 1 && nelt == 2, "VSread case E");
+    H4V_CANARY("VSread end");
+}
